@@ -336,6 +336,37 @@ def _check_before_write(ctx, mod):
            'capacity (_check_limit(_calc_free(<partition of the request in '
            'that cell>, ..), request)) on every path',
            construct='overall capacity check')
+    # the limits a request is checked against are the current ones: the
+    # partition record is read from the admin store at every request (a
+    # record kept from an earlier request misses a later change of the
+    # partition's capacity or trait limits)
+    if pgdef is not None:
+        params = set(pgdef.params())
+        rets = [r for r in K.walk_no_nested(pgdef.raw)
+                if isinstance(r, ast.Return)]
+        fresh = bool(rets)
+        for ret in rets:
+            val = K.rexpr(pgdef, ret.value) if ret.value is not None \
+                else None
+            if isinstance(val, ast.Dict):
+                continue            # the zero-capacity stand-in
+            if isinstance(val, ast.Call) and K.is_meth(val, 'get') and \
+                    isinstance(K.recv(val), ast.Call):
+                continue            # <admin partition>().get([...])
+            fresh = False
+        kept = [sub for sub in K.walk_no_nested(pgdef.raw)
+                if isinstance(sub, (ast.Assign, ast.AugAssign)) and any(
+                    isinstance(t, ast.Subscript) and
+                    isinstance(t.value, ast.Name) and
+                    t.value.id not in params and
+                    t.value.id in mod.consts
+                    for t in (sub.targets if isinstance(sub, ast.Assign)
+                              else [sub.target]))]
+        ctx.ob('C19.3', pgdef, kept[0] if kept else None,
+               fresh and not kept,
+               'the partition record is read from the admin store at every '
+               'request (nothing is kept between requests)',
+               construct='partition record read afresh')
     for fname in ('_calc_free', '_calc_free_traits'):
         func = mod.functions[fname]
         nz = N.Normaliser()
